@@ -39,10 +39,14 @@ EVENT_POOL = ['Claim', 'Release', 'Grab', 'Unclaim', 'Start', 'Stop', 'Ok', 'Fai
 FORMAL_POOL = ['info', 'why', 'x', 'n', 'msg', 'value', 'arg1', 'p_', 'Info', 'y', 'z']
 FIELD_POOL = ['Ok', 'Fail', 'Error', 'Yes', 'No', 'f0', 'A', 'b', 'Busy']
 
+# names the generated shell uses for its own members and helper types
+API_NAMES = ['Locator', 'FinalConstruct', 'Dispatcher', 'Runtime', 'Sts', 'Mts', 'ILog', 'Arbitered',
+             'MultiClientSelector', 'MutexWrapped', 'StrictPort']
+
 FEATURES = ['deep_ns', 'global_enc', 'shared_itf', 'empty_itf', 'no_ports', 'inout_mix',
             'out_many_formals', 'nested_enum', 'outer_enum', 'injected', 'same_name_siblings',
             'multi_id_ns', 'reopened_ns', 'system_enc', 'partial_spelling', 'distractors',
-            'many_ports', 'subint_reply', 'bool_reply', 'mc_ready', 'ref_extern', 'prefix_ports', 'mirror_ns', 'many_provides', 'prefix_ns', 'many_requires', 'shadow_ns', 'repeat_ns']
+            'many_ports', 'subint_reply', 'bool_reply', 'mc_ready', 'ref_extern', 'prefix_ports', 'mirror_ns', 'many_provides', 'prefix_ns', 'many_requires', 'shadow_ns', 'repeat_ns', 'name_like_ns', 'api_names']
 
 
 def _uniq(draw, pool, taken, n=1):
@@ -94,7 +98,13 @@ def shell_model(draw, force=None, max_ports=6, collide=False):  # pylint: disabl
         if len(enc_scope) < 2:
             enc_scope = ('Outer',) + (enc_scope or ('Inner',))
         shadow_root = (enc_scope[-1],)
+    like_ns = None
+    if 'name_like_ns' in feats and not ({'shadow_ns', 'prefix_ns'} & feats) and not repeat:
+        # a declaration named like the top-level namespace it lives in (Hal.Hal)
+        like_ns = (enc_scope[0],) if enc_scope else ('Hal',)
     scopes = [enc_scope[:k] for k in range(len(enc_scope) + 1)]
+    if like_ns:
+        scopes.append(like_ns)
     if shadow_root:
         scopes.append(shadow_root)
     if prefix_sibling:
@@ -182,6 +192,9 @@ def shell_model(draw, force=None, max_ports=6, collide=False):  # pylint: disabl
         if repeat and i == 1:
             sc = enc_scope  # its formals look up X.Y.<extern> from X.Y.X.<interface>
         nm = _uniq(draw, pool_for(TYPE_POOL), names_in[sc])
+        if like_ns and i == 0 and like_ns[0] not in names_in[like_ns]:
+            sc, nm = like_ns, like_ns[0]
+            names_in[sc].add(nm)
         itf = {'k': 'interface', 'name': [nm], 'types': [], 'events': []}
         if ('nested_enum' in feats and i == 0) or 'mc_ready' in feats or \
                 draw(st.integers(0, 3)) == 0:
@@ -226,6 +239,25 @@ def shell_model(draw, force=None, max_ports=6, collide=False):  # pylint: disabl
                 e = {'k': 'enum', 'name': [nm], 'fields': ['Zz']}
             elif kind == 'extern':
                 e = {'k': 'extern', 'name': [nm], 'value': '::xt::Distractor'}
+            else:
+                e = {'k': 'interface', 'name': [nm], 'types': [], 'events': []}
+            e['distractor'] = True
+            decls.append((sc, e))
+
+    # ---- unrelated declarations (never referenced) named like members / types of the generated code
+    if 'api_names' in feats:
+        for k in range(draw(st.integers(2, 4))):
+            sc = draw(st.sampled_from(scopes))
+            kind = draw(st.sampled_from(['component', 'foreign', 'enum', 'interface']))
+            # the two public members every shell may have come first, the rest is drawn
+            nm = API_NAMES[k] if k < 2 else draw(st.sampled_from(API_NAMES))
+            if nm in names_in[sc]:
+                continue
+            names_in[sc].add(nm)
+            if kind in ('component', 'foreign'):
+                e = {'k': kind, 'name': [nm], 'ports': []}
+            elif kind == 'enum':
+                e = {'k': 'enum', 'name': [nm], 'fields': ['Zz']}
             else:
                 e = {'k': 'interface', 'name': [nm], 'types': [], 'events': []}
             e['distractor'] = True
